@@ -71,3 +71,10 @@ CHECKS["C15"] = dict(
     design_ref="DESIGN.md 3 C15",
     note="Embedding in arguments/links/cells through the whole pipeline is covered only by the path query and the replay catalogue; rev_ht stubbed by an association list; content bound is small (per-character behaviour).",
 )
+CHECKS["C01"] = dict(
+    engine="E2 z3 regex; E1 CrossHair",
+    technique="z3 sequence-theory language inclusion between the tokenizer's tag alternatives and tag_fn's own patterns (no length bound), emptiness and repeat-count lemmas; CrossHair on the string-merge kernel",
+    text="Necessary conditions only: every tag-like token the tokenizer can emit is accepted by tag_fn (else tag_fn raises), no token alternative matches the empty string, every heading bookend is a key of the level table - all for strings of any length; the merge kernel establishes 'non-empty strings, no two adjacent, no placeholder characters' for symbolic children lists. Whole-document well-formedness is NOT claimed.",
+    design_ref="DESIGN.md 3 C01",
+    note="\\b modelled by a marker literal (sound for inclusion, models replayed on Wtp.parse); placement rules, argument shapes and other raise sites are outside.",
+)
